@@ -1,7 +1,7 @@
 (* C16 -- configured payload limits are enforced early and never by truncation.
    Property statements only; proofs live in Proofs/WsRecvLimits.v.  Model: Model/WsRecv.v. *)
 From Coq Require Import NArith List Bool.
-From AV Require Import Model.Masker Gen.WsConsts Model.WsRecv Proofs.WsRecvProofs Proofs.WsRecvLimits Proofs.WsRecvOversize.
+From AV Require Import Model.Masker Gen.WsConsts Model.WsRecv Proofs.WsRecvProofs Proofs.WsRecvLimits Proofs.WsRecvOversize Proofs.WsRecvSeq Proofs.WsRecvSeqAll.
 Import ListNotations.
 Open Scope N_scope.
 
@@ -30,6 +30,19 @@ Theorem C16_early : forall D cd cf (s : rstate D) f,
   failed (cn D (fst (on_frame_begin D cd cf s f))) = true.
 Proof. exact on_frame_begin_too_big. Qed.
 Print Assumptions C16_early.
+
+(* ... at the level of reads, through the declarative judge (C02_sequence): for EVERY configuration, from the state
+   after the handshake, a stream consisting of a data frame header (complete: extended length and masking key
+   present) whose declared length is over a configured limit -- followed by anything, in particular by NOTHING -- is
+   read with the TooBig failure as its first judged event: no payload octet is needed *)
+Theorem C16_early_header_only : forall D (cd : codec D) cf, (forall d, d_data cd d [] = (d, [])) ->
+  forall p d0 b0 b1 r n r1, p <> CLOSED -> bytes_ok (b0 :: b1 :: r) ->
+  rfc_header_bad cf false b0 b1 = false -> 8 <=? b0 mod 16 = false ->
+  (if b1 mod 128 <=? 125 then 0 else if b1 mod 128 =? 126 then 2 else 8) + (if bit b1 7 then 4 else 0) <= lenN r ->
+  rfc_length (b1 mod 128) r = LOk n r1 -> rfc_too_big cf (0 + n) n = true ->
+  exists s' evs, feed D cd cf (init_state D p d0) (b0 :: b1 :: r) = Done D s' evs /\ judged evs = ([], VFail VTooBig).
+Proof. exact early_too_big. Qed.
+Print Assumptions C16_early_header_only.
 
 (* ---- running total: each data frame header adds its declared length; a new message restarts from 0 ---- *)
 Theorem C16_running_total : forall D cd cf (s : rstate D) f, fb_is_ctl (f_op f) = false ->
